@@ -63,3 +63,42 @@ Theorem C12_overwrite_silent : forall root k slot x,
                                                (set_nth (N.to_nat slot) x (lf_slots l0)))) = leaf_versions root.
 Proof. exact c12_overwrite_silent. Qed.
 Print Assumptions C12_overwrite_silent.
+
+(** ** Store level, all layers (PutInfoProofs): the report of an inserting put is exact across the whole store.
+    (1) among the borders that existed before, exactly the reported one changes its version word; (2) no border
+    disappears; (3) the new borders are the reported created one (iff the landing border was full) and the roots
+    of next layers that did not exist before -- those are not reported, and need not be: they are unreachable to
+    other transactions until the landing border's link is published, and that publication is the reported change. *)
+From Yk Require Import KeyProofs SpecDefs StoreProofs PhantomProofs PutInfoProofs.
+
+Theorem C12_store_info_exact : forall ctr tr k v unique tr' po ctr' info,
+  WF_store ctr tr -> t_null tr = false -> bytes k ->
+  smap_get (abs_tree tr) k = None ->
+  put tr k v unique ctr = Some (tr', po, ctr') -> po_info po = Some info ->
+  (forall id, In id (store_ids tr) ->
+      (store_leaf_ver tr' id <> store_leaf_ver tr id <-> id = pi_modified info)) /\
+  (forall id, In id (store_ids tr) -> In id (store_ids tr')).
+Proof.
+  intros ctr tr k v unique tr' po ctr' info W Hn Hb Ha Hp Hi.
+  destruct (store_put_info_exact ctr tr k v unique tr' po ctr' info W Hn Hb Ha Hp Hi) as (H1 & H2 & _).
+  split; assumption.
+Qed.
+Print Assumptions C12_store_info_exact.
+
+(** an overwrite and a failed unique insert change no version word anywhere *)
+Theorem C12_store_overwrite_silent : forall ctr tr k v tr' po ctr',
+  WF_store ctr tr -> bytes k -> smap_get (abs_tree tr) k <> None ->
+  put tr k v false ctr = Some (tr', po, ctr') ->
+  (forall id, store_leaf_ver tr' id = store_leaf_ver tr id) /\
+  store_ids tr' = store_ids tr /\ length (t_layers tr') = length (t_layers tr) /\
+  po_info po = None /\ po_status po = St_OK /\ ctr' = ctr.
+Proof. exact store_overwrite_silent. Qed.
+Print Assumptions C12_store_overwrite_silent.
+
+Theorem C12_store_failed_unique_silent : forall ctr tr k v tr' po ctr',
+  WF_store ctr tr -> bytes k -> smap_get (abs_tree tr) k <> None ->
+  put tr k v true ctr = Some (tr', po, ctr') ->
+  tr' = tr /\ po_status po = St_WARN_UNIQUE_RESTRICTION /\ po_info po = None /\ po_retired po = [] /\
+  ctr' = ctr /\ (forall id, store_leaf_ver tr' id = store_leaf_ver tr id).
+Proof. exact store_failed_unique_silent. Qed.
+Print Assumptions C12_store_failed_unique_silent.
